@@ -204,9 +204,10 @@ def resolver_arms(ctx, rid):
         expect_term(ctx, rid, "resolver/%s.path" % v, arm, t, exp, "struct/enum reference: own path + non-skipped type params resolved in order (order-preserving filter_map)")
     # result wrapping
     body_t = N.term(fn["body"], {ty_id: "TY"})
-    tail = body_t[2] if body_t[0] == "early" else body_t
-    ok = tail[0] == "call" and tail[1] == "Ok" and tail[2][0][0] == "call" and tail[2][0][1] == "TypePath::from_type" and tail[2][0][2][0][0] == "match"
-    ctx.expect(ok, rid, "resolver/result", fn["sp"], "result = Ok(TypePath::from_type(<match>))", "result term: " + show(tail)[:300])
+    from .core.norm import subterms as _st
+    wraps = [x for x in _st(body_t) if x[0] == "call" and x[1] == "TypePath::from_type" and x[2] and x[2][0][0] == "match"]
+    oks = [x for x in _st(body_t) if x[0] == "call" and x[1] == "Ok" and x[2] and any(y is wraps[0] for y in _st(x[2][0]))] if wraps else []
+    ctx.expect(len(wraps) == 1 and oks, rid, "resolver/result", fn["sp"], "result = Ok(TypePath::from_type(<match>))", "result term: " + show(body_t)[:300])
 
 
 def resolver_entry_flags(ctx, rid):
@@ -498,10 +499,10 @@ def enum_struct_ir(ctx, rid):
         expect_term(ctx, rid, "struct-ir/docs", structs[0], f["docs"], docs_exp, "type docs")
     # early return for non struct/enum
     bt = N.term(fn["body"], syms)
-    ok = bt[0] == "early" and show(bt[1][0][0]) == "Not((let TypeDef::Composite(_)=%s.type_def||let TypeDef::Variant(_)=%s.type_def))" % (TY, TY) \
-        and show(bt[1][0][1]) == "return Ok(v1::None)"
-    ctx.expect(ok, rid, "type-ir/only-struct-enum", fn["sp"], "an IR is built iff the definition is Composite or Variant",
-               "early-return guard: " + (show(bt[1][0][0]) + " => " + show(bt[1][0][1]) if bt[0] == "early" else show(bt)[:200]))
+    ok = bt[0] == "call" and bt[1] == "Ok" and bt[2][0][0] == "call" and bt[2][0][1] == "then" \
+        and show(bt[2][0][2][0]) == "(let TypeDef::Composite(_)=%s.type_def||let TypeDef::Variant(_)=%s.type_def)" % (TY, TY) and bt[2][0][2][1][0] == "struct"
+    ctx.expect(ok, rid, "type-ir/only-struct-enum", fn["sp"], "an IR is built iff the definition is Composite or Variant (Ok(None) otherwise)",
+               "result: " + show(bt)[:200])
     # the TypeIR literal
     tirs = list(q.struct_lits(fn["body"], "type_ir::TypeIR"))
     if len(tirs) == 1:
@@ -559,9 +560,9 @@ def field_closures(ctx, rid):
     t = N.term(fn["body"])
     NAMED = "Iterator::all(P1,|1|{Option::is_some(C1_0.name)})"
     UNNAMED = "Iterator::all(P1,|1|{Option::is_none(C1_0.name)})"
-    exp_sel = ("early{slice::is_empty(P1)=>return Ok(CompositeIRKind::NoFields);Not((%s||%s))=>return Err(TypegenError::InvalidFields(%s))}"
+    exp_sel = ("if(slice::is_empty(P1)){Ok(CompositeIRKind::NoFields)}else{if((%s||%s)){"
                "if(%s){Ok(CompositeIRKind::Named(Iterator::collect(Iterator::map(P1,|1|{%s}))?))}else{if(%s){Ok(CompositeIRKind::Unnamed(Iterator::collect(Iterator::map(P1,|1|{%s}))?))}else{<diverge>}}"
-               ) % (NAMED, UNNAMED, ANY, NAMED, ANY, UNNAMED, ANY)
+               "}else{Err(TypegenError::InvalidFields(%s))}}") % (NAMED, UNNAMED, NAMED, ANY, UNNAMED, ANY, ANY)
     expect_term(ctx, rid, "kind-selection", fn["sp"], t, exp_sel,
                 "empty -> NoFields; mixed -> Err(InvalidFields); all named -> Named(order-preserving map); all unnamed -> Unnamed(order-preserving map)")
     # CompositeFieldIR::new is a plain constructor
@@ -791,8 +792,8 @@ def definition_predicate(ctx, rid, require_skip_substituted=True):
     if sub is None:
         ctx.bad(rid, "missing-anchor/get_or_insert_submodule", "", "get_or_insert_submodule not found")
     else:
-        exp_s = ("early{slice::is_empty(P1)=>return P0}ModuleIR::get_or_insert_submodule(Entry::or_insert_with(BTreeMap::entry(P0.children,Ident::new(P1['0'],Span::call_site())),"
-                 "|0|{ModuleIR::new(Ident::new(P1['0'],Span::call_site()),P0.root_mod)}),P1[ops::RangeFrom{start:'1'}])")
+        exp_s = ("if(slice::is_empty(P1)){P0}else{ModuleIR::get_or_insert_submodule(Entry::or_insert_with(BTreeMap::entry(P0.children,Ident::new(P1['0'],Span::call_site())),"
+                 "|0|{ModuleIR::new(Ident::new(P1['0'],Span::call_site()),P0.root_mod)}),P1[ops::RangeFrom{start:'1'}])}")
         expect_term(ctx, rid, "define/submodule-chain", sub["sp"], _norm(ctx, sub).term(sub["body"]), exp_s,
                     "one nested module per namespace segment, created on demand with the parent's root ident; recursion on the remaining segments")
 
@@ -838,8 +839,8 @@ def phantom_data(ctx, rid):
     U_NEW = "Iterator::filter(P0.params,|1|{BTreeSet::contains(P0.unused,C1_0)})"
     exps = []
     for U in (U_NEW, U_OLD):
-        exps.append("early{BTreeSet::is_empty(P0.unused)=>return v1::None}Some(T[:: core :: marker :: PhantomData < #0 >](if((BTreeSet::len(P0.unused)=='1')){T[#0](Option::expect(Iterator::next(%s)))}else{T[( #( #0 ),* )](%s)}))" % (U, U))
-        exps.append("early{BTreeSet::is_empty(P0.unused)=>return v1::None}Some(T[:: core :: marker :: PhantomData < #0 >](if((BTreeSet::len(P0.unused)=='1')){T[#0](Option::expect(Iterator::next(mut[%s;.Iterator::next() if (BTreeSet::len(P0.unused)=='1')])))}else{T[( #( #0 ),* )](mut[%s;.Iterator::next() if (BTreeSet::len(P0.unused)=='1')])}))" % (U, U))
+        exps.append("then(Not(BTreeSet::is_empty(P0.unused)),T[:: core :: marker :: PhantomData < #0 >](if((BTreeSet::len(P0.unused)=='1')){T[#0](Option::expect(Iterator::next(%s)))}else{T[( #( #0 ),* )](%s)}))" % (U, U))
+        exps.append("then(Not(BTreeSet::is_empty(P0.unused)),T[:: core :: marker :: PhantomData < #0 >](if((BTreeSet::len(P0.unused)=='1')){T[#0](Option::expect(Iterator::next(mut[%s;.Iterator::next() if (BTreeSet::len(P0.unused)=='1')])))}else{T[( #( #0 ),* )](mut[%s;.Iterator::next() if (BTreeSet::len(P0.unused)=='1')])}))" % (U, U))
     expect_term(ctx, rid, "phantom-data", fn["sp"], t, exps,
                 "None iff no unused parameter; exactly the unused parameters inside ::core::marker::PhantomData<..> (tuple when several)")
 
@@ -882,14 +883,15 @@ def param_match_predicate(ctx, rid):
     i_id = q.param_index(fn, lambda t: t == "u32")
     i_par = q.param_index(fn, lambda t: "TypeParameter]" in t)
     i_name = q.param_index(fn, lambda t: t.startswith("std::option::Option<&str"))
-    if t[0] != "early" or not t[1]:
-        ctx.bad(rid, "param-match/first-statement", fn["sp"], "the resolver does not start with the parent-parameter match")
+    if not (t[0] == "call" and t[1] == "search" and len(t[2]) == 4):
+        ctx.bad(rid, "param-match/first-statement", fn["sp"], "the resolver does not start with the search for a matching parent parameter: " + show(t)[:160])
         return
-    c, v = t[1][0]
-    FIND = "Iterator::find(P%d,|1|{((C1_0.concrete_type_id==P%d)&&Option::is_none_or(P%d,|1|{(C1_0.original_name==C2_0)}))})" % (i_par, i_id, i_name)
-    expect_term(ctx, rid, "param-match/predicate", fn["sp"], c, "let v1::Some($)=" + FIND,
+    it, pred, hit, _rest = t[2]
+    EL = "elem(P%d)" % i_par
+    expect_term(ctx, rid, "param-match/predicate", fn["sp"], "%s|%s" % (show(it), show(pred)),
+                "P%d|((%s.concrete_type_id==P%d)&&Option::is_none_or(P%d,|1|{(%s.original_name==C1_0)}))" % (i_par, EL, i_id, i_name, EL),
                 "first parent parameter (declaration order) with the same concrete id and, when a recorded name is given, the same original name")
-    expect_term(ctx, rid, "param-match/result", fn["sp"], v, "return Ok(TypePath::from_parameter(%s@v1::Some.0))" % FIND, "the reference is rendered as that parameter")
+    expect_term(ctx, rid, "param-match/result", fn["sp"], hit, "Ok(TypePath::from_parameter(%s))" % EL, "the reference is rendered as that parameter")
 
 
 def id_opacity(ctx, rid, crates=("scale_typegen", "scale_typegen_description"), floors=True):
